@@ -3,6 +3,7 @@ import time
 import math
 from fractions import Fraction
 
+import os
 import z3
 
 from .core import (Sx, SymBool, Ctx, NotEncodable, components, common_M, reduce_terms, _q2f)
@@ -349,3 +350,37 @@ def check_sat(ctx, pathcond=None, timeout_s=20):
     s.add(*env.all_side())
     r, dt = _run(s)
     return r
+
+
+def cross_check(smt2_text, timeout_s=10):
+    """Second opinion on one query: the SMT-LIB text z3 was given, decided by the cvc5 binary.  Returns 'sat' | 'unsat' | 'unknown'
+    ('unknown' also for a time-out, an error line or a missing binary -- never counted as agreement)."""
+    import shutil
+    import subprocess
+    import tempfile
+    exe = shutil.which('cvc5')
+    if exe is None:
+        return 'unknown'
+    d = os.path.join(os.path.dirname(os.path.dirname(os.path.abspath(__file__))), '.tmp')
+    os.makedirs(d, exist_ok=True)
+    fd, path = tempfile.mkstemp(suffix='.smt2', dir=d)
+    try:
+        with os.fdopen(fd, 'w') as f:
+            f.write('(set-logic ALL)\n' + smt2_text)
+        try:
+            r = subprocess.run([exe, '--lang', 'smt2', '--tlimit=%d' % int(timeout_s * 1000), path], capture_output=True, text=True,
+                               timeout=timeout_s + 5)
+        except subprocess.TimeoutExpired:
+            return 'unknown'
+        out = (r.stdout or '').strip().splitlines()
+        if '(error' in (r.stdout or '') or '(error' in (r.stderr or ''):
+            return 'unknown'
+        for line in out:
+            if line.strip() in ('sat', 'unsat', 'unknown'):
+                return line.strip()
+        return 'unknown'
+    finally:
+        try:
+            os.remove(path)
+        except OSError:
+            pass
